@@ -249,6 +249,7 @@ def _key_uses(prog, fn, pname, seen=None, depth=0):
         return {}, set(), []
     seen.add((fn.qualname, pname))
     reads, writes, other = {}, set(), []
+    via_call = {}       # key -> line of the call through which it is read
     mod = fn.module
     for node in ast.walk(fn.node):
         if isinstance(node, ast.Subscript) and isinstance(node.value, ast.Name) \
@@ -285,11 +286,10 @@ def _key_uses(prog, fn, pname, seen=None, depth=0):
             if isinstance(node.func, ast.Attribute) and \
                     isinstance(node.func.value, ast.Name) and \
                     node.func.value.id == pname:
-                if node.func.attr == 'update' and node.args and \
-                        isinstance(node.args[0], ast.Dict):
-                    for k in node.args[0].keys:
-                        if isinstance(k, ast.Constant):
-                            writes.add(k.value)
+                if node.func.attr == 'update' and \
+                        update_items(node) is not None:
+                    for k, _v in update_items(node):
+                        writes.add(k)
                 elif node.func.attr in ('get',) and node.args and \
                         isinstance(node.args[0], ast.Constant):
                     reads.setdefault(node.args[0].value, node)
@@ -317,6 +317,8 @@ def _key_uses(prog, fn, pname, seen=None, depth=0):
                         r_, w_, o_ = _key_uses(prog, callee, ps[i], seen,
                                                depth + 1)
                         for k, v in r_.items():
+                            if k not in reads:
+                                via_call[k] = node.lineno
                             reads.setdefault(k, v)
                         writes |= w_
                         other += o_
@@ -326,6 +328,8 @@ def _key_uses(prog, fn, pname, seen=None, depth=0):
                         r_, w_, o_ = _key_uses(prog, callee, k.arg, seen,
                                                depth + 1)
                         for kk, v in r_.items():
+                            if kk not in reads:
+                                via_call[kk] = node.lineno
                             reads.setdefault(kk, v)
                         writes |= w_
                         other += o_
@@ -340,6 +344,9 @@ def _key_uses(prog, fn, pname, seen=None, depth=0):
     for k in list(reads):
         if k in top and getattr(reads[k], 'lineno', 0) > top[k] and \
                 model.enclosing_function(prog, mod, reads[k]) is fn:
+            del reads[k]
+        elif k in top and k in via_call and via_call[k] > top[k]:
+            # read in a callee that is called after the local (re)assignment
             del reads[k]
     return reads, writes, other
 
@@ -365,17 +372,17 @@ def check_defaults(prog, rep, rule='R-defaults'):
                     isinstance(st.value.func, ast.Attribute) and \
                     st.value.func.attr == 'update' and \
                     isinstance(st.value.func.value, ast.Name) and \
-                    st.value.func.value.id == p and st.value.args and \
-                    isinstance(st.value.args[0], ast.Dict):
+                    st.value.func.value.id == p and \
+                    update_items(st.value):
                 # values of the literal must not read p itself
-                vals_use = [x for v in st.value.args[0].values
+                its_ = update_items(st.value)
+                vals_use = [x for _k, v in its_
                             for x in ast.walk(v)
                             if isinstance(x, ast.Name) and x.id == p]
                 if not vals_use:
                     is_reset = True
-                    for k in st.value.args[0].keys:
-                        if isinstance(k, ast.Constant):
-                            reset.add(k.value)
+                    for k, _v in its_:
+                        reset.add(k)
             elif isinstance(st, ast.Assign) and len(st.targets) == 1 and \
                     paths.subscript_key(st.targets[0]) and \
                     paths.subscript_key(st.targets[0])[0] == p and \
@@ -401,6 +408,30 @@ def check_defaults(prog, rep, rule='R-defaults'):
                    detail='reset at entry: %s; read: %s'
                    % (sorted(map(str, reset)), sorted(map(str, reads))))
     return n
+
+
+def update_items(call):
+    """(key, value) pairs written by ``d.update(...)`` in any of its literal
+    spellings: a dict display, keyword arguments, ``dict(k=v, ...)``; None
+    when the argument is not literal."""
+    items = []
+    for a in call.args:
+        if isinstance(a, ast.Dict):
+            for k, v in zip(a.keys, a.values):
+                if not isinstance(k, ast.Constant):
+                    return None
+                items.append((k.value, v))
+        elif isinstance(a, ast.Call) and isinstance(a.func, ast.Name) and \
+                a.func.id == 'dict' and not a.args and \
+                all(k.arg is not None for k in a.keywords):
+            items.extend((k.arg, k.value) for k in a.keywords)
+        else:
+            return None
+    for k in call.keywords:
+        if k.arg is None:
+            return None
+        items.append((k.arg, k.value))
+    return items
 
 
 # ---------------------------------------------------------------------------
